@@ -57,6 +57,41 @@ def in_domain(text):
     return all(ch in MODELLED or ch == "\n" or ch in gen.LABELS or ch in UNICODE_MODELLED for ch in text)
 
 
+def tup(f):
+    """a fragment as the enclosure stage sees it (already scaled: at the default scale its numbers are lattice units) ->
+    the element tuple of PipelineOps!Strip"""
+    def n(v):
+        if abs(v - round(v)) > 1e-6:
+            raise Inexact()
+        return int(round(v))
+    k = f["k"]
+    if k == "line":
+        return ["line", n(f["s"][0]), n(f["s"][1]), n(f["e"][0]), n(f["e"][1]), f["b"], ""]
+    if k == "mline":
+        if f["sm"]:
+            raise Inexact()
+        em = {"Circle": "circle", "OpenCircle": "open_circle", "BigOpenCircle": "big_open_circle"}.get(f["em"], f["em"])
+        return ["line", n(f["s"][0]), n(f["s"][1]), n(f["e"][0]), n(f["e"][1]), f["b"], "end_marked_" + em]
+    if k == "arc":
+        return ["path", n(f["s"][0]), n(f["s"][1]), n(f["r"]), f["sweep"], n(f["e"][0]), n(f["e"][1]), f["major"]]
+    if k == "circle":
+        return ["circle", n(f["c"][0]), n(f["c"][1]), n(f["r"]), f["f"]]
+    if k == "polygon":
+        return ["polygon"] + [n(v) for p in f["pts"] for v in p]
+    if k == "rect":
+        return ["rect", n(f["s"][0]), n(f["s"][1]), n(f["e"][0]) - n(f["s"][0]), n(f["e"][1]) - n(f["s"][1]), n(f["r"]), f["b"], f["f"]]
+    if k == "text":
+        return ["text", n(f["s"][0]), n(f["s"][1]), f["t"]]
+    raise Inexact()
+
+
+def flat_trees(trees, out):
+    for t in trees:
+        out.append([tup(t["f"]), t["tags"]])
+        flat_trees(t["in"], out)
+    return out
+
+
 def events_of(stages):
     """hook events of one conversion -> PipelineTrace events (may raise Inexact)"""
     out = []
@@ -81,6 +116,8 @@ def events_of(stages):
                         "rejects": [[[c[0], c[1]] for c in sp] for sp in st["rejects"]]})
         elif s == "regroup":
             out.append({"ev": "regroup", "free": [frag(f) for f in st["free"]], "groups": [[frag(f) for f in g] for g in st["groups"]]})
+        elif s == "enclose":
+            out.append({"ev": "enclose", "items": [tup(f["f"]) for f in st["input"]], "flat": flat_trees(st["trees"], [])})
     return out
 
 
